@@ -27,21 +27,21 @@ import (
 )
 
 type Ctx struct {
-	Suite   string
-	Seed    int64
-	Tier    string
-	N       int
-	Rng     *rand.Rand
-	OutDir  string
-	cases   *bufio.Writer
-	impl    *bufio.Writer
-	oracle  *bufio.Writer
-	idx     int
-	Counts  map[string]int
-	Samples []string
+	Suite    string
+	Seed     int64
+	Tier     string
+	N        int
+	Rng      *rand.Rand
+	OutDir   string
+	cases    *bufio.Writer
+	impl     *bufio.Writer
+	oracle   *bufio.Writer
+	idx      int
+	Counts   map[string]int
+	Samples  []string
 	distinct map[string]bool
-	fails   int
-	Notes   map[string]interface{}
+	fails    int
+	Notes    map[string]interface{}
 }
 
 type Suite struct {
